@@ -372,6 +372,22 @@ static bool read_case(const char* path, Case& c) {
   fclose(f); return true;
 }
 
+// the convolved table of a case as one vector of words (shape, knots of the convolved dimension, coefficients), built afresh
+static std::vector<uint64_t> convolved_words(const Case& c) {
+  uint32_t nd = c.ord.size();
+  Table t; build_table(t, c.ord, c.kn, c.coef);
+  for (uint32_t i = 0; i < nd; i++) { t.extents[i][0] = c.ext[i][0]; t.extents[i][1] = c.ext[i][1]; }
+  std::vector<uint64_t> w;
+  if (c.cwrap) { struct splinetable st; st.data = &t; w.push_back(splinetable_convolve(&st, (int)c.dim, c.ck.data(), c.ck.size())); }
+  else { try { t.convolve(c.dim, c.ck.data(), c.ck.size()); w.push_back(0); } catch (std::exception&) { w.push_back(1); return w; } }
+  for (uint32_t i = 0; i < nd; i++) { w.push_back(t.order[i]); w.push_back(t.nknots[i]); w.push_back(t.naxes[i]); }
+  for (uint64_t j = 0; j < t.nknots[c.dim]; j++) w.push_back(cbits(t.knots[c.dim][j]));
+  uint64_t nc = 1; for (uint32_t i = 0; i < nd; i++) nc *= t.naxes[i];
+  for (uint64_t j = 0; j < nc; j++) w.push_back(cbits(t.coefficients[j]));
+  return w;
+}
+static std::vector<Case> g_keep;   // cases kept for the concurrent phase
+
 int main(int argc, char** argv) {
   if (argc < 6) { fprintf(stderr, "usage\n"); return 2; }
   int ncases = atoi(argv[1]), npoints = atoi(argv[2]);
@@ -395,6 +411,7 @@ int main(int argc, char** argv) {
       Case c; gen_case(r, c, npoints, i < 12 ? i % 6 : -1);   // every order at least twice
       if (f0bad && c.ord[c.dim] == 0) { if (order0_done >= 1) { stats["order0_cases_skipped_factorial0_slow"]++; continue; } order0_done++; }
       emit_case(c); run_case(c);
+      if (g_keep.size() < 8 && c.coef.size() >= 24) g_keep.push_back(c);
       fflush(fc); fflush(fi);
     }
     // grid family: its own generator, so that the cases above are the same as before for a given seed
@@ -409,6 +426,19 @@ int main(int argc, char** argv) {
       emit_case(c); run_case(c);
       fflush(fc); fflush(fi);
     }
+  }
+  // ---- concurrent phase: convolve works on its own table only (and the blossom routine on its arguments only), so
+  // convolutions of DIFFERENT tables running at the same time must each give what they give alone (the model is a function
+  // of table, dimension and kernel).  The kept cases are convolved alone first, then by four threads started together.
+  if (argc <= 6 && !g_keep.empty()) {
+    const int NT = 4, ROUNDS = ncases >= 200 ? 40 : 12;
+    std::vector<std::vector<uint64_t>> alone; for (auto& c : g_keep) alone.push_back(convolved_words(c));
+    std::vector<int> bad(NT, 0);
+    int rc = run_concurrently(NT, 120,
+      [&](int k) { for (int round = 0; round < ROUNDS; round++) for (size_t j = 0; j < g_keep.size(); j++) { size_t q = (j + k * 3 + round) % g_keep.size(); if (convolved_words(g_keep[q]) != alone[q]) bad[k]++; } },
+      [&]() { int n = 0; for (int b : bad) n += b; return n > 100 ? 100 : n; });
+    stats["concurrent_threads"] = NT; stats["concurrent_convolve_calls"] = (long)NT * ROUNDS * (long)g_keep.size(); stats["concurrent_cases"] = (long)g_keep.size();
+    stats["concurrent_outcome"] = rc;   // 0 = every table equal to the one convolved alone; > 0 = number that differ; < 0 = -signal
   }
   fclose(fc); fclose(fi);
   FILE* fs = fopen(argv[5], "w");
